@@ -3,5 +3,7 @@ CONSTANTS
   Worlds = {}
   BugCursorLeak = FALSE
   MaxInt = 1000000
-INVARIANTS TraceNotStuck ExactlyOneFormat HomoPaired OtherUntouched Upgraded ReadyIsCurrent
+INVARIANTS ExactlyOneFormat HomoPaired OtherUntouched Upgraded ReadyIsCurrent
+POSTCONDITION TraceAccepted
 CHECK_DEADLOCK FALSE
+ALIAS Compact
